@@ -94,6 +94,65 @@ CLAIMED = {
         technique='abstract interpretation into rewrite templates + '
                   'structural induction; template validity by normal form '
                   'or bounded model enumeration of the extracted terms'),
+    'C09': dict(
+        text='Round trip by structural induction, all parts decided '
+             'statically: the grammar text of each parser is obtained by '
+             'abstract interpretation of init_submodule; canonical LR(1) '
+             'item sets show each grammar unambiguous up to value (PL and '
+             'CTL* only through one transparent parenthesis production, '
+             'proven value-redundant); every printer template (extracted '
+             'from __str__ with children as placeholders, 40 templates) has '
+             'exactly one derivation value: the same constructor over the '
+             'children in order; callbacks exist; printer and grammar share '
+             'one symbol table; the printers read as grammars over '
+             'canonical tokens are LR(1), so printing is injective (CTL* / '
+             'LTL / PL notation and CTL\'s own notation).',
+        ref='3-C09',
+        note='trusted: lark expands EBNF faithfully, its contextual lexer '
+             'splits printer output at the blanks/parentheses the printer '
+             'emits and its LALR driver follows its table; atoms '
+             'identifier-style and not reserved; n-ary and/or arity >= 2',
+        technique='grammar analysis: canonical LR(1) conflict check, '
+                  'sentential-form recogniser over printer templates '
+                  '(string-template abstract interpretation), structural '
+                  'induction'),
+    'C10': dict(
+        partial=True,
+        text='Every grammar is sort-typed: the least fixpoint of possible '
+             'root operators per nonterminal shows that no derivation hands '
+             'a constructor an operand (or a number of operands) it does '
+             'not accept (C08 signature table), so no foreign exception '
+             'escapes and every accepted string denotes a formula of '
+             'exactly that logic; operator tokens agree with the class each '
+             'callback builds; callbacks exist and build through the '
+             'parser\'s own language; modelchecks default to their own '
+             'parser; Parser.__call__ translates exactly lark\'s two '
+             'exception classes into the positioned package errors.',
+        ref='3-C10',
+        note='trusted: lark raises only UnexpectedToken / '
+             'UnexpectedCharacters on malformed input; the value of pos '
+             'and the lexer\'s splitting of glued tokens are run-time '
+             'matters, not decided',
+        technique='grammar sort typing (least fixpoint), slot/alias '
+                  'agreement, exception-translation path analysis'),
+    'C11': dict(
+        partial=True,
+        text='For each of the 66 classes of the formula lattice the '
+             'MRO-resolved __eq__/__hash__ are interpreted abstractly: both '
+             'exist (no __eq__ without a __hash__ at or below it), equality '
+             'is string equality of printed forms, the hash is a function '
+             'of the same key (Bool: value comparison with bool and Bool). '
+             'clone of a generic instance of every class is the same class '
+             'over clones of all children in order. The printed form is an '
+             'injective key (printer grammars of both notations are LR(1) '
+             'over canonical tokens). Hence f == g iff same tree, equal '
+             'formulas hash equally, == is an equivalence, clone shares '
+             'nothing.',
+        ref='3-C11',
+        note='trusted: atoms identifier-style, not reserved words; str() '
+             'deterministic (C07 R-PURE-4)',
+        technique='protocol-coherence analysis over the class lattice + '
+                  'clone templates + LR(1) injectivity of the printers'),
     'C13': dict(
         partial=True,
         text='DiGraph is analysed at the level of its adjacency dictionary: '
